@@ -15,6 +15,7 @@ def run(pid, tier):
     mc = run_tlc('MCNoise', 'SPECIFICATION Spec\nCONSTANT MaxLen = %d\nINVARIANT Inv\n' % (4 if quick else 5), workers=16, timeout=2500)
     tin = os.path.join(scratch(), 'noise_in.json')
     run_impl('drv_noise.py', [tin, 60 if quick else 1500, common.seed()], timeout=6000)
+    common.split_error_rows(v, 'C14', tin)
     rows = json.load(open(tin))
     tr, res = table_check(v, 'NoiseTrace', '', tin, rows, pid)
     v.coverage.update({
